@@ -87,7 +87,8 @@ Record config := mk_config {
 
 Inductive lerr :=
 | EDeserialize | EAddrInUse | EMissing | EIncompatible | EWrongFrontendProtocol | EInvalidFrontendConfig
-| EInvalidAlpn | EDisableHttp11 | EBufferSize | EHstsEnabledRequired | EHstsOnPlainHttp | EFileRead.
+| EInvalidAlpn | EDisableHttp11 | EBufferSize | EHstsEnabledRequired | EHstsOnPlainHttp | EFileRead
+| EInvalidHealthCheck.
 
 Inductive res (A : Type) := Ok (a : A) | Err (e : lerr).
 Arguments Ok {A} a.
@@ -248,6 +249,7 @@ Definition http_front_conv (cid : bytes) (f : fdecl) : res (front * Z * bool) :=
   | None => Err EMissing
   | Some host =>
     if fd_cert f =? -5 then Err EFileRead
+    else if negb (Bool.eqb (fd_key f) (negb (fd_cert f =? -1))) then Err EMissing   (* certificate and key come together *)
     else
       let kind := match fd_path f with None => 0 | Some _ => dflt (fd_kind f) 0 end in
       let path := match fd_path f with None => [] | Some p => p end in
@@ -354,11 +356,21 @@ Definition build_clu (c : cdecl) (pp : Z) : clu :=
          (if cd_hc c then hc_fill (cd_hc_vals c) hc_defaults else [-1; -1; -1; -1; -1])
          (cd_pay c).
 
+(** [validate_health_check_config] *)
+Definition hc_valid (c : clu) : bool :=
+  negb (c_hc c)
+  || (forallb (fun v => 0 <? v) (firstn 4 (c_hc_vals c))
+      && match c_hc_uri c with
+         | Some (47%N :: rest) => forallb (fun b => (32 <=? b)%N || (b =? 9)%N) rest
+         | _ => false
+         end).
+
 Definition add_cluster_cfg (st : lstate) (c : ccfg) : lstate :=
   mk_lstate (ls_known st) (ls_expect st) (ls_http st) (ls_https st) (ls_tcp st) (ls_udp st) (ls_clusters st ++ [c]).
 
 Definition populate_cluster (d : decl) (c : cdecl) (st : lstate) : res lstate :=
-  if cd_proto c =? 1 then
+  if negb (hc_valid (build_clu c (-1))) then Err EInvalidHealthCheck
+  else if cd_proto c =? 1 then
     match tcp_fronts_conv (ls_expect st) None (cd_id c) (cd_fronts c) with
     | Err e => Err e
     | Ok (ts, has) =>
@@ -513,15 +525,6 @@ Definition set_active (l : lst) : lst :=
 Definition activate (k : list tok) (l : list lst) : list lst * dres :=
   if has lkey k l then (map (fun y => if toks_eqb (lkey y) k then set_active y else y) l, DOk)
   else (l, DNotFound).
-
-(** [validate_health_check_config] *)
-Definition hc_valid (c : clu) : bool :=
-  negb (c_hc c)
-  || (forallb (fun v => 0 <? v) (firstn 4 (c_hc_vals c))
-      && match c_hc_uri c with
-         | Some (47%N :: rest) => forallb (fun b => (32 <=? b)%N || (b =? 9)%N) rest
-         | _ => false
-         end).
 
 (** [ConfigState::dispatch] *)
 Definition dispatch (s : state) (r : request) : state * dres :=
